@@ -4,23 +4,7 @@ import os
 
 VERIF = os.path.dirname(os.path.dirname(os.path.abspath(__file__)))
 
-CLAIMED = {
-    "C10": {
-        "text": "Coq theorems over all signatures and all calls (no bound on arity): every binder idiom is proved sound "
-                "for the kind-presence tuples satisfying its adequacy condition, and the dispatch matrix regenerated "
-                "from the live module on every run is proved (vm_compute over its 32 rows) to route every tuple to an "
-                "adequate binder; hence each argument is converted by the parameter it binds to, shapes are preserved "
-                "and rejected calls stay TypeError. The hand model of _get_binding and of the 16 __call__ bodies is tied "
-                "to the code by correspondence (cases.v + vm_compute) and the statement itself is replayed on the "
-                "implementation for all 32 tuples x call shapes.",
-        "design_ref": "DESIGN.md section 7 / C10",
-        "note": "Trusted: Coq kernel+VM; reflection of _BINDING_CLS_MATRIX; correspondence harness; CPython's binding "
-                "rule is the spec (checked against the interpreter and inspect.Signature.bind per generated call). "
-                "functools.wraps metadata and the actual call of f are exercised by the oracle only.",
-        "technique": "Coq proof (induction over argument lists, segment-form signatures) + reflected dispatch matrix "
-                     "checked by vm_compute + model/implementation correspondence",
-    },
-}
+CLAIMED = {}
 
 # per-property claim files written next to each check: manifest.d/Cxx.json with keys text, design_ref, note, technique
 MD = os.path.join(VERIF, "manifest.d")
